@@ -223,6 +223,32 @@ def _():
                 and other.allows(self.min)
             ):""")
 
+@fix("D24", "fix: '!= X' allows all of \"'S' not in\" exactly when S is a substring of X")
+def _():
+    sub("constraints/generic/constraint.py",
+        """                if self._operator == "!=":
+                    return self.value not in other.value""",
+        """                if self._operator == "!=":
+                    # every value without the substring differs from our value
+                    # if and only if our value contains the substring
+                    return other.value in self.value""")
+
+@fix("D12a", "fix: the union of two multi-constraints without a common clause is the universal constraint")
+def _():
+    sub("constraints/generic/multi_constraint.py",
+        """            common = [c for c in self.constraints if c in theirs]
+            return self.__class__(*common)""",
+        """            common = [c for c in self.constraints if c in theirs]
+            if not common:
+                return AnyConstraint()
+            return self.__class__(*common)""")
+
+@fix("D25", "fix: string constraint parsers reject the operator '!==' instead of raising KeyError")
+def _():
+    sub("constraints/generic/parser.py",
+        'BASIC_CONSTRAINT = re.compile(r"^(!?==?)?\\s*([^\\s]+?)\\s*$")',
+        'BASIC_CONSTRAINT = re.compile(r"^(!=|==?)?\\s*([^\\s]+?)\\s*$")')
+
 def main():
     id_ = sys.argv[1]
     msg, f = FIXES[id_]
